@@ -50,10 +50,10 @@ def c11(tier):
     bins = build_harness(("release",))
     hv = bins["release"]
     per = {"E": 6000, "S": 1500, "N": 600, "R": 300, "rnd": 1500, "L": 500, "T": 300, "M": 800, "W": 1500, "G": 400,
-           "I": 200} if tier == "quick" \
+           "I": 200, "U": 1500, "Y": 300} if tier == "quick" \
         else {"E": 60000, "S": 30000, "N": 12000, "R": 400, "rnd": 30000, "L": 8000, "T": 4000, "M": 15000,
-              "W": 30000, "G": 8000, "I": 4000}
-    pops, per = dev_pops(["E", "S", "N", "R", "rnd", "L", "T", "M", "W", "G", "I"], per)
+              "W": 30000, "G": 8000, "I": 4000, "U": 30000, "Y": 6000}
+    pops, per = dev_pops(["E", "S", "N", "R", "rnd", "L", "T", "M", "W", "G", "I", "U", "Y"], per)
     cases = override_cases() or population(hv, tier, sd, pops, per)
     reqs, ans = dump_programs(hv, cases)
     progs, seen, forms = [], set(), {}
